@@ -458,7 +458,7 @@ impl Oracle {
                 "C01",
                 "W4-after-disconnect",
                 &ctx,
-                format!("{} bytes offered after DISCONNECT was written: {}", buf.len(), mr::hex(buf)),
+                format!("{} bytes offered after DISCONNECT was written: {}", buf.len(), mr::hex_short(buf)),
             );
         }
         if self.conns[c].cur_off == 0 && self.conns[c].cur.as_deref().is_some_and(|cur| cur != buf) {
@@ -487,9 +487,9 @@ impl Oracle {
                         "after {} of {} bytes of {} the next offered buffer is {} (expected continuation {})",
                         off,
                         cur.len(),
-                        mr::hex(&cur),
-                        mr::hex(buf),
-                        mr::hex(rest)
+                        mr::hex_short(&cur),
+                        mr::hex_short(buf),
+                        mr::hex_short(rest)
                     ),
                 );
                 self.conns[c].torn = true;
@@ -507,7 +507,7 @@ impl Oracle {
                 "C01",
                 "W3-malformed",
                 &format!("type{}-{:?}-{}", ty, class, why.replace(' ', "_")),
-                format!("offered packet {} is malformed: {}", mr::hex(buf), why),
+                format!("offered packet {} is malformed: {}", mr::hex_short(buf), why),
             );
         }
         match decoded {
@@ -528,14 +528,14 @@ impl Oracle {
                     "C01",
                     "W3-malformed",
                     &format!("type{}-{:?}-{}", ty, class, why.replace(' ', "_")),
-                    format!("offered packet {} is malformed: {}", mr::hex(buf), why),
+                    format!("offered packet {} is malformed: {}", mr::hex_short(buf), why),
                 );
                 if matches!(ty, 4 | 5 | 7) {
                     self.flag(
                         "C04",
                         "I4-ack-malformed",
                         &format!("type{}-{}", ty, why.replace(' ', "_")),
-                        format!("the acknowledgement {} offered on connection {} is not a legal MQTT 5 packet: {}", mr::hex(buf), c, why),
+                        format!("the acknowledgement {} offered on connection {} is not a legal MQTT 5 packet: {}", mr::hex_short(buf), c, why),
                     );
                 }
                 if ty == 1 {
@@ -543,7 +543,7 @@ impl Oracle {
                         "C12",
                         "R2-connect-malformed",
                         &why.replace(' ', "_"),
-                        format!("the CONNECT offered on connection {} is not a legal MQTT 5 packet ({}): {}", c, why, mr::hex(buf)),
+                        format!("the CONNECT offered on connection {} is not a legal MQTT 5 packet ({}): {}", c, why, mr::hex_short(buf)),
                     );
                 }
                 if why == "packet identifier 0" {
@@ -551,7 +551,7 @@ impl Oracle {
                         "C07",
                         "id-zero",
                         &format!("type{}", ty),
-                        format!("packet {} carries packet identifier 0", mr::hex(buf)),
+                        format!("packet {} carries packet identifier 0", mr::hex_short(buf)),
                     );
                 }
                 self.conns[c].torn = true;
@@ -598,7 +598,7 @@ impl Oracle {
                         "C01",
                         "W3-malformed",
                         &format!("type{}-{:?}-{}", ty, class, why.replace(' ', "_")),
-                        format!("written bytes {} are malformed: {}", mr::hex(&acc), why),
+                        format!("written bytes {} are malformed: {}", mr::hex_short(&acc), why),
                     );
                     self.conns[c].torn = true;
                     break;
@@ -746,7 +746,7 @@ impl Oracle {
                 "C05",
                 "S3-unknown-request",
                 pkt.name(),
-                format!("{} on the wire does not correspond to any request made: {}", pkt.name(), mr::hex(raw)),
+                format!("{} on the wire does not correspond to any request made: {}", pkt.name(), mr::hex_short(raw)),
             );
             return;
         };
@@ -872,13 +872,13 @@ impl Oracle {
                         prop,
                         "Q2-bytes-differ",
                         kname,
-                        format!("retransmission {} differs from first transmission {}", mr::hex(raw), mr::hex(&first)),
+                        format!("retransmission {} differs from first transmission {}", mr::hex_short(raw), mr::hex_short(&first)),
                     );
                     self.flag(
                         "C17",
                         "A1-bytes-differ",
                         kname,
-                        format!("retransmission {} differs from first transmission {}", mr::hex(raw), mr::hex(&first)),
+                        format!("retransmission {} differs from first transmission {}", mr::hex_short(raw), mr::hex_short(&first)),
                     );
                 } else if is_pub && retransmission && raw[0] & 0x08 == 0 {
                     let prop = if kind == ReqKind::Pub1 { "C02" } else { "C03" };
